@@ -17,10 +17,10 @@ L_KNUTH = "Knuth's LR(1) theorem (closed states + goto kernels + table read off 
 GLUE = 'grammar_info glue: analyze_term / analyze_nterm / analyze_eof / analyze_error_recovery_token / make_symbol / analyze_rule are under contract (unit glue) against abstract DSL objects whose accessors are under contract in units terms, rules, values; the pack expansions that call them once per term / nonterminal / rule (analyze_terms, analyze_nterms, analyze_rules), create_lexer and init_reductors (R18) are outside the extraction'
 
 PROPS = {
-    'C01': dict(units=['state_analyzer', 'state_analyzer@small', 'driver', 'stdex', 'glue'],
+    'C01': dict(units=['state_analyzer', 'state_analyzer@small', 'driver', 'stdex', 'glue', 'utils'],
                 claim='local step contracts of the LR(1) construction that are within reach: item index encode/decode round trip, memo-key injectivity of the FIRST/nullable slice memos, rule sorting (ordered + permutation) and per-nonterminal slices (partition), add_situation (item set, item list, bucket by symbol after the dot, kernel), bitset primitives; and the driver executing the table entry of (top state, presented term)',
                 assumptions=[L_KNUTH, GLUE, L_PATH, TABLE_WF]),
-    'C03': dict(units=['regex_decode', 'dfa'],
+    'C03': dict(units=['regex_decode', 'dfa', 'dfa@small'],
                 claim='the specified links of the chain: decoding of characters/escapes/hex and ranges (unsigned, inclusive), the automaton run loop (longest prefix, slot-0 winner, stops only at end or missing transition), expr::match = whole-string recognition of term 0 without forming a pointer from the failure sentinel',
                 assumptions=['language equality over unbounded strings is not expressible as a contract; the composition operators (cat/alt/star/plus/opt/rep by in-place merging) are not verified and are unsound (finding D9)',
                              'well-formedness of the library-built automata (every transition none or < size) rests on the builder, not verified: [L-wf]', 'string_view_to_subset and the dfa_builder primitives are not under contract']),
@@ -31,7 +31,7 @@ PROPS = {
                 claim='absence of undefined behaviour (every CBMC safety check and every woven logical bound) on the whole parse path including the failure and recovery paths (lexical error in get_current_term, non-matching regex::expr::match, popping during recovery): the exact condition under which a constant evaluator must accept the evaluation; the parse path is one lowered text for all buffer kinds (R7)',
                 assumptions=["that g++'s and clang's constant evaluators and the compiled code compute the same function of a UB-free evaluation is the language standard (trusted)",
                              'buffer adaptors: cstring_buffer::iterator operators, begin/end and get_view of the three buffers are under contract (unit buffers) with std::string / std::string_view members read as (pointer, length) pairs and their iterators as pointers (standard-library meaning, trusted); the cstring_buffer constructor (pack-expanded copy_array) is a pattern fact only', LEXER]),
-    'C11': dict(units=['diag', 'state_analyzer', 'state_analyzer@small', 'glue'],
+    'C11': dict(units=['diag', 'state_analyzer', 'state_analyzer@small', 'glue', 'utils'],
                 claim='write_state_diag_str prints for every term column exactly one action line of the kind the table entry has, with the rule number / target state of that entry (including the losing reduction of a resolved S/R conflict); the RULES list numbers rules as the action lines do; all name/rule/symbol indices in bounds; add_situation files an item under the symbol after its dot',
                 assumptions=['that the item sets and conflict flags in the table are the true LR(1) ones is C01 (transitions/closure not under contract)', 'text formatting is lowered to events (R10)', 'the DFA dump is not verified']),
     'C12': dict(units=['dfa', 'driver', 'stdex', 'state_analyzer', 'cvec_iter'],
@@ -41,7 +41,7 @@ PROPS = {
     'C02': dict(units=['driver', 'stdex', 'dfa', 'terms', 'rules', 'values', 'glue', 'reductors', 'cvec_iter'],
                 claim='driver-level half of bottom-up evaluation: which rule functor is invoked, with which stack slice, in which order, once; shift applies the term functor of the shifted term to the pending lexeme; success returns the bottom value',
                 assumptions=[L_PATH, L_IDS, TABLE_WF, R13, 'that the popped slice is the handle of the unique derivation is the LR(1) theorem (C01), not mechanised']),
-    'C04': dict(units=['driver', 'utils', 'dfa', 'buffers', 'terms', 'values'], static=[SF.buffers_static],
+    'C04': dict(units=['driver', 'utils', 'dfa', 'dfa@small', 'buffers', 'terms', 'values'], static=[SF.buffers_static],
                 claim='whitespace skipping is exactly the documented sets; the lexer is asked once at the skipped position with the whole rest of the buffer; the lexeme is exactly [current_it, current_it+len); a failure result yields one Unexpected character report',
                 assumptions=[LEXER, 'longest match/first-listed priority of the automaton itself: unit dfa (dfa_match/run); the union automaton built by merging is not verified (finding D10)']),
     'C06': dict(units=['driver', 'stdex', 'utils', 'regex_lexer', 'dfa', 'values', 'cvec_iter'], all=['driver', 'stdex'],
@@ -51,7 +51,7 @@ PROPS = {
     'C08': dict(units=['driver', 'state_analyzer', 'glue'],
                 claim='step relation of the driver loop written from the documented recovery algorithm: enter (one message, nothing discarded), pop (one state and its value), shift of the error symbol, input discarding, exits',
                 assumptions=[L_PATH, L_IDS, TABLE_WF, LEXER]),
-    'C09': dict(units=['driver', 'terms', 'values', 'glue', 'dfa'],
+    'C09': dict(units=['driver', 'terms', 'values', 'glue', 'dfa', 'utils'],
                 claim='without error rules and not verbose: no event before the failure, exactly one (Unexpected character | Syntax error) on failure with position and payload, none on success',
                 assumptions=[L_PATH, TABLE_WF, LEXER, 'that the term reported is the first that cannot continue a valid prefix is the immediate-error-detection property of canonical LR(1) tables (C01), not mechanised']),
     'C10': dict(units=['driver', 'values'],
@@ -63,7 +63,7 @@ PROPS = {
     'C15': dict(units=['driver'], all=['driver'], static=[SF.c15_static],
                 claim='frame: no parse-path function writes parse_table, gi, state_count, names or any other parser member (assigns clauses contain only parse-local state); static scan: no mutable/const_cast/function-local static, parse members const',
                 assumptions=['data-race freedom follows from read-only sharing; no schedule is explored', R13]),
-    'C16': dict(units=['driver', 'values', 'entry'], all=['driver'], static=[SF.c16_static],
+    'C16': dict(units=['driver', 'values', 'entry', 'utils'], all=['driver'], static=[SF.c16_static],
                 claim='every contract states the same state change for verbose on and off (verbose only adds events); trace payloads (Shift to, Reduced using rule, Go to, Recognized) equal the action performed',
                 assumptions=['stream type: both no_stream and std::ostream lower to the ghost event sink (R10); text formatting is not verified', LEXER]),
     'C17': dict(units=['utils', 'regex_lexer', 'terms', 'values', 'glue'],
